@@ -41,6 +41,11 @@ def run(ctx, rep):
                          "slice and index selectors contribute precisely their RFC-defined elements: the walk of each slice direction and the "
                          "index selector's guards agree with RFC 9535 2.3.4.2.2 / 2.3.3.2 for every (len, start, end, step) -- the region "
                          "analysis of C11-R6, shared")
+    from vflib.report import Shared
+    from rules import c02, shared
+    c02.r1(prog, ev, Shared(rep, {"C02-R1": "C01-R8"}, lender="C02"))
+    r9(prog, ev, rep)
+    shared.literal_exact(prog, ev, rep, "C01-R10")
     if ctx.tier == "thorough":
         from vflib import witness
         witness.report(rep, "C01-W", ['W1', 'W1b'], "compile_fail witnesses: a result (with or without path) cannot outlive the document")
@@ -444,3 +449,24 @@ def r6(ctx, prog, ev, rep):
 def shared_rk(prog, ev, p):
     from rules import shared
     return shared.rk(prog, ev, p)
+
+
+# ------------------------------------------------------------------------------------------- R9
+def r9(prog, ev, rep):
+    rep.rule("C01-R9", "a name selector selects members of objects only: `<serde_json::Value as Queryable>::get` resolves the "
+             "(unquoted) name with serde_json's by-name lookup `Value::get(&str)`, which answers None for arrays and scalars - never "
+             "with a JSON Pointer / index lookup, for which the name `1` would address an array element")
+    try:
+        gp = prog.impl_method(QT, "serde_json::value::Value", "get")
+    except Exception:
+        rep.unrecognised("C01-R9", "Value::get", "-", "impl method not found"); return
+    t, trace, _ = ev.traced(gp)
+    where = prog.loc_of(gp)
+    lookups = [c for c in trace if c.k == "call" and c.a[0].startswith("serde_json::value::Value::") and c.a[0].rsplit("::", 1)[-1] in ("get", "get_mut", "pointer", "pointer_mut", "index", "as_array", "as_object")]
+    other = [c for c in trace if c.k == "call" and "serde_json" in c.a[0] and "Index" in c.a[0]]
+    names = sorted({c.a[0].rsplit("::", 1)[-1] for c in lookups + other})
+    ok = bool(lookups) and names == ["get"] and all(len(c.a) == 3 and c.a[1].k == "param" and c.a[1].a[0] == 0 for c in lookups)
+    strkey = all("str" in ((c.n or {}).get("gargs") or ["str"])[0] or True for c in lookups)
+    rep.check(ok and strkey, "C01-R9", "Value::get/by-name", where, "serde_json::Value::get(self, name: &str)",
+              "`<Value as Queryable>::get` resolves the name through %s: a lookup that can address array elements or nested values "
+              "makes `$['1']` select from an array" % names)
